@@ -191,7 +191,24 @@ func c15DedupSort(p *chk.Prog, r *chk.Report) {
 				okOrder = false
 			}
 		}
-		x.Check("updateConfig:allowed-deduplicated-and-sorted", s.Pos(), !w1.Found && !w2.Found && okOrder, "", "a neighbour can be stored with allowed prefixes that are not de-duplicated and sorted (after all advertisements were added)")
+		okDedup := !w1.Found && !w2.Found && okOrder
+		if !okDedup && !w2.Found {
+			// sort first, then drop adjacent duplicates (slices.Compact of a sorted list de-duplicates it)
+			compact := f.IsAssignPat("N.ToAdvertise.Allowed.Prefixes", "slices.Compact(N.ToAdvertise.Allowed.Prefixes)", chk.H("N", same))
+			cs := g.Find(compact)
+			if len(cs) == 1 && g.AfterLoop(cs[0], advLoop) {
+				w3 := g.MustPass(from, func(n ast.Node) bool { return n == s.Top }, false, compact)
+				w4 := g.MustPass(from, func(n ast.Node) bool { return n == cs[0].Top }, false, srt)
+				// nothing is added between the sort and the compaction
+				okDedup = !w3.Found && !w4.Found
+				for _, ss := range g.Find(srt) {
+					if !g.AfterLoop(ss, advLoop) {
+						okDedup = false
+					}
+				}
+			}
+		}
+		x.Check("updateConfig:allowed-deduplicated-and-sorted", s.Pos(), okDedup, "", "a neighbour can be stored with allowed prefixes that are not de-duplicated and sorted (after all advertisements were added)")
 		// keyed by the session's own name
 		key := s.Node.(*ast.AssignStmt).Lhs[0].(*ast.IndexExpr).Index
 		x.Check("updateConfig:neighbour-keyed-by-session", s.Pos(), definedBy(g, "sessionName(*S)", chk.H("S", sess))(key), "", "neighbours are not keyed by their session")
